@@ -1,0 +1,97 @@
+//! Verification-only access to the crate-private storage layer.
+//! Compiled only with `--cfg agdb_verif`.
+
+use super::Storage;
+use super::StorageData;
+use super::StorageIndex;
+use crate::DbError;
+
+pub struct VerifStorage<D: StorageData>(Storage<D>);
+
+impl<D: StorageData> VerifStorage<D> {
+    pub fn new(name: &str) -> Result<Self, DbError> {
+        Ok(Self(Storage::new(name)?))
+    }
+
+    pub fn with_data(data: D) -> Result<Self, DbError> {
+        Ok(Self(Storage::with_data(data)?))
+    }
+
+    pub fn commit(&mut self, id: u64) -> Result<(), DbError> {
+        self.0.commit(id)
+    }
+
+    pub fn insert_bytes(&mut self, bytes: &[u8]) -> Result<u64, DbError> {
+        Ok(self.0.insert_bytes(bytes)?.0)
+    }
+
+    pub fn insert_bytes_at(&mut self, index: u64, offset: u64, bytes: &[u8]) -> Result<(), DbError> {
+        self.0.insert_bytes_at(StorageIndex(index), offset, bytes)
+    }
+
+    pub fn len(&self) -> u64 {
+        self.0.len()
+    }
+
+    pub fn is_empty(&self) -> bool {
+        self.0.len() == 0
+    }
+
+    pub fn move_at(&mut self, index: u64, from: u64, to: u64, size: u64) -> Result<(), DbError> {
+        self.0.move_at(StorageIndex(index), from, to, size)
+    }
+
+    pub fn name(&self) -> &str {
+        self.0.name()
+    }
+
+    pub fn optimize_storage(&mut self) -> Result<(), DbError> {
+        self.0.optimize_storage()
+    }
+
+    /// Live records as `(index, pos, size)` ordered by position.
+    pub fn records(&self) -> Vec<(u64, u64, u64)> {
+        self.0
+            .records
+            .records()
+            .iter()
+            .map(|r| (r.index, r.pos, r.size))
+            .collect()
+    }
+
+    pub fn remove(&mut self, index: u64) -> Result<(), DbError> {
+        self.0.remove(StorageIndex(index))
+    }
+
+    pub fn replace_with_bytes(&mut self, index: u64, bytes: &[u8]) -> Result<(), DbError> {
+        self.0.replace_with_bytes(StorageIndex(index), bytes)
+    }
+
+    pub fn resize_value(&mut self, index: u64, new_size: u64) -> Result<(), DbError> {
+        self.0.resize_value(StorageIndex(index), new_size)
+    }
+
+    pub fn transaction(&mut self) -> u64 {
+        self.0.transaction()
+    }
+
+    pub fn value_as_bytes(&self, index: u64) -> Result<Vec<u8>, DbError> {
+        Ok(self.0.value_as_bytes(StorageIndex(index))?.to_vec())
+    }
+
+    pub fn value_as_bytes_at_size(
+        &self,
+        index: u64,
+        offset: u64,
+        size: u64,
+    ) -> Result<Vec<u8>, DbError> {
+        Ok(self
+            .0
+            .value_as_bytes_at_size(StorageIndex(index), offset, size)?
+            .to_vec())
+    }
+
+    pub fn value_size(&self, index: u64) -> Result<u64, DbError> {
+        self.0.value_size(StorageIndex(index))
+    }
+}
